@@ -53,7 +53,7 @@ Print Assumptions C15_unknown_context_is_error.
 (* the loader's file work-list always finishes within its fuel: a file that includes itself, or files
    that include each other, cannot make it run forever (every step takes a new file of the tree) *)
 Theorem C15_loader_worklist_terminates : forall (t : ytree) pf,
-  load_files (S (S (length t * 8))) t [(pf, None)] 0 [] <> Fuel.
+  load_files (load_fuel t) t [(pf, (None, None))] 0 [] <> Fuel.
 Proof. exact loader_worklist_terminates. Qed.
 Print Assumptions C15_loader_worklist_terminates.
 
